@@ -49,6 +49,7 @@ import (
 	"os"
 	"path/filepath"
 	"sort"
+	"strings"
 	"time"
 
 	"github.com/canopy-network/canopy/bft"
@@ -64,6 +65,28 @@ const (
 	ChainId   = uint64(1)
 	NetworkId = uint64(1)
 )
+
+// RealCodeError is what the harness panics with when the REAL code (store, fsm, controller, crypto)
+// returns an error in a place where an honest run cannot fail (opening a store it closed itself,
+// scanning the state, deriving a committee, aggregating signatures). Such an error is an observation
+// about the code under test, not a harness bug: drivers recover it (execdrv.Guard) and report it as
+// an oracle failure with the history. Plain panics are left for harness-internal impossibilities.
+type RealCodeError struct {
+	Where string
+	Err   string
+}
+
+func (e RealCodeError) Error() string { return e.Where + ": " + e.Err }
+
+func realCode(where string, err error) {
+	if err != nil {
+		panic(RealCodeError{Where: where, Err: oneLine(err.Error())})
+	}
+}
+
+func oneLine(s string) string {
+	return strings.Join(strings.Fields(s), " ")
+}
 
 // Network is the shared genesis and key material of a set of independent nodes.
 type Network struct {
@@ -221,7 +244,9 @@ func (n *Network) NewNode(valIdx int) *Node {
 	}
 	nd := &Node{Net: n, Name: fmt.Sprintf("n%d", len(n.nodes)), Key: key, fs: vfs.NewMem()}
 	n.nodes = append(n.nodes, nd)
-	nd.open()
+	if stage, err := nd.open(); err != nil {
+		realCode("new node on the genesis: "+stage, err)
+	}
 	return nd
 }
 
@@ -235,33 +260,49 @@ func (nd *Node) enter() {
 	}
 }
 
-func (nd *Node) open() {
+// open builds store, state machine and controller over the node's files and rebuilds the mempool
+// proposal. A real-code error is returned with the stage it occurred in; after "rebuild-mempool-proposal"
+// the node is still usable (it has a controller), after the earlier stages it is not.
+func (nd *Node) open() (stage string, rerr lib.ErrorI) {
 	nd.enter()
+	defer func() {
+		if r := recover(); r != nil {
+			rerr = lib.NewError(lib.NoCode, "verif-panic", fmt.Sprint(r))
+		}
+	}()
+	stage = "open-store"
 	db, err := store.VerifOpenStoreOnFS(nd.fs, nd.Net.Config, nd.Net.Log)
 	if err != nil {
-		panic(fmt.Sprintf("open store: %v", err))
+		nd.dead = true
+		return stage, err
 	}
+	stage = "fsm.New"
 	sm, err := fsm.New(nd.Net.Config, db, nil, nil, nd.Net.Log)
 	if err != nil {
-		panic(fmt.Sprintf("fsm.New: %v", err))
+		nd.dead = true
+		return stage, err
 	}
+	stage = "controller.New"
 	c, err := controller.New(sm, nd.Net.Config, nd.Key, nil, nd.Net.Log)
 	if err != nil {
-		panic(fmt.Sprintf("controller.New: %v", err))
+		nd.dead = true
+		return stage, err
 	}
 	c.RCManager = &selfRC{c: c}
 	nd.C, nd.db, nd.dead = c, db, false
 	nd.Opens++
 	// what Controller.Start does before anything else: build the first cached proposal
+	stage = "rebuild-mempool-proposal"
 	reset := c.SetFSMInConsensusModeForProposals()
-	if e := c.Mempool.CheckMempool(); e != nil {
-		reset()
-		panic(fmt.Sprintf("initial CheckMempool: %v", e))
-	}
+	e := c.Mempool.CheckMempool()
 	reset()
 	if nd.Net.voteWindow {
 		nd.OpenProposalVoteWindow()
 	}
+	if e != nil {
+		return stage, e
+	}
+	return "", nil
 }
 
 // OpenProposalVoteWindow makes currentProposalVoteConfig() answer APPROVE_LIST, as it does in a node
@@ -313,12 +354,16 @@ func (nd *Node) close() {
 
 // Reopen closes the store, purges the process-wide block cache and builds a new FSM and controller
 // over the same (in-memory) files: a process restart. The mempool content is lost, as in a restart.
-func (nd *Node) Reopen() {
+// It returns the stage and the error when the real code cannot come back up.
+func (nd *Node) Reopen() (stage string, err lib.ErrorI) {
 	nd.close()
 	store.VerifPurgeBlockCache()
 	nd.Net.active = nil
-	nd.open()
+	return nd.open()
 }
+
+// Dead reports that the node has no usable controller (a failed reopen before the controller existed).
+func (nd *Node) Dead() bool { return nd.dead }
 
 // PurgeProcessCaches empties the process-wide block cache without touching the node.
 func (nd *Node) PurgeProcessCaches() { store.VerifPurgeBlockCache() }
@@ -516,9 +561,7 @@ func (nd *Node) BlockEvents(height uint64) (out []string) {
 func (nd *Node) MaxBlockSize() uint64 {
 	nd.enter()
 	m, err := nd.C.FSM.GetMaxBlockSize()
-	if err != nil {
-		panic(err)
-	}
+	realCode("FSM.GetMaxBlockSize", err)
 	return m
 }
 
@@ -543,9 +586,7 @@ func (nd *Node) StateDump() []KV {
 		out = append(out, KV{hex.EncodeToString(k), hex.EncodeToString(v)})
 		return nil
 	})
-	if err != nil {
-		panic(err)
-	}
+	realCode("state scan (FSM.IterateAndExecute)", err)
 	sort.Slice(out, func(i, j int) bool { return out[i].K < out[j].K })
 	return out
 }
@@ -559,9 +600,7 @@ func (nd *Node) MempoolStateDump() []KV {
 		out = append(out, KV{hex.EncodeToString(k), hex.EncodeToString(v)})
 		return nil
 	})
-	if err != nil {
-		panic(err)
-	}
+	realCode("mempool state scan (FSM.IterateAndExecute)", err)
 	sort.Slice(out, func(i, j int) bool { return out[i].K < out[j].K })
 	return out
 }
@@ -621,9 +660,7 @@ func (nd *Node) WorkingRoot() string {
 func (nd *Node) Committee() lib.ValidatorSet {
 	nd.enter()
 	vs, err := nd.C.LoadCommittee(ChainId, nd.C.FSM.Height())
-	if err != nil {
-		panic(err)
-	}
+	realCode("LoadCommittee at the node height", err)
 	return vs
 }
 
@@ -635,12 +672,10 @@ func (nd *Node) Committee() lib.ValidatorSet {
 func (n *Network) Certify(vs lib.ValidatorSet, block []byte, results *lib.CertificateResult, signers []int, phase lib.Phase, rcBuildHeight uint64, proposer crypto.PrivateKeyI, round ...uint64) *lib.QuorumCertificate {
 	blk := new(lib.Block)
 	blockHash, err := blk.BytesToBlockHash(block)
-	if err != nil {
-		panic(err)
-	}
+	realCode("block hash of the proposed block bytes", err)
 	hdrOnly := new(lib.Block)
 	if e := lib.Unmarshal(block, hdrOnly); e != nil {
-		panic(e)
+		realCode("unmarshal of the proposed block bytes", e)
 	}
 	view := &lib.View{NetworkId: NetworkId, ChainId: ChainId, Height: hdrOnly.BlockHeader.Height, RootHeight: rcBuildHeight, Phase: phase}
 	if len(round) != 0 {
@@ -674,13 +709,11 @@ func (n *Network) Aggregate(vs lib.ValidatorSet, msg []byte, signers []int) *lib
 			continue
 		}
 		if e := mk.AddSigner(k.Sign(msg), idx); e != nil {
-			panic(e)
+			realCode("multi-key AddSigner", e)
 		}
 	}
 	sig, e := mk.AggregateSignatures()
-	if e != nil {
-		panic(e)
-	}
+	realCode("multi-key AggregateSignatures", e)
 	return &lib.AggregateSignature{Signature: sig, Bitmap: mk.Bitmap()}
 }
 
